@@ -6,7 +6,7 @@ PROP = dict(
                "content flattened into the mutated text), of grammar-generated decks and of shipped binary/formatted result files "
                "run through Parser -> EclipseState -> Schedule -> SummaryConfig and through EclFile/ERst/ESmry/ExtESmry/EGrid/ERft/"
                "EInit in an AddressSanitizer+UBSan build with fatal reports. A pass is a result or a std::exception; a sanitizer "
-               "report, signal, abort, non-std exception or a case exceeding the watchdog twice is a violation keyed by its site.",
+               "report, signal, abort, non-std exception or a case that, run alone, needs more than 120 CPU seconds is a violation keyed by its site.",
     level_note="A clean sanitizer run is not memory safety (red-zone tools miss intra-object and non-adjacent overflows). "
                "allocator_may_return_null=1 so absurd sizes surface as std::bad_alloc. Liveness is restated as bounded progress "
                "(per-case watchdog). Inputs are sampled, not enumerated.",
@@ -14,11 +14,11 @@ PROP = dict(
     rule="case = one mutated byte string (1-5 mutations of a seed). Non-trivial: deck cases that parse or are refused with an "
          "exception; every file case. distinct = hash of the mutated bytes",
     stages=[
-        dict(id="deck_asan", harness="c20_deck", flavour="asan", cases={Q: 12000, T: 400000}, timeout={Q: 1500, T: 14400},
+        dict(id="deck_asan", harness="c20_deck", flavour="asan", cases={Q: 30000, T: 600000}, timeout={Q: 1500, T: 14400},
              hang="violation", case_timeout=120, max_restarts=60),
-        dict(id="file_asan", harness="c20_file", flavour="asan", cases={Q: 12000, T: 300000}, timeout={Q: 1500, T: 14400},
+        dict(id="file_asan", harness="c20_file", flavour="asan", cases={Q: 20000, T: 400000}, timeout={Q: 1500, T: 14400},
              hang="violation", case_timeout=120, max_restarts=60),
     ],
-    min_nontrivial={Q: 8000, T: 200000},
+    min_nontrivial={Q: 20000, T: 400000},
     assumptions=["the shipped decks and result files are representative seeds", "Python-embedding keywords (PYINPUT/PYACTION) are not seeded"],
 )
